@@ -62,6 +62,8 @@ type SlotRep struct {
 	Bd  Num        `json:"bd"`  // BoundSerializedSizeInBytes(N, max+1)
 	Mx  int        `json:"mx"`  // ceil((max+1)/65536), 0 when empty
 	Trunc int      `json:"trunc"` // 0, or the real number of chunks when ch was truncated
+	Gc    Num      `json:"gc"`    // GetCardinality()
+	Emp   bool     `json:"emp"`   // IsEmpty()
 }
 
 const repChunkCap = 96
@@ -325,6 +327,8 @@ func (e *Exec) repOf(s int) SlotRep {
 		r.Val = err.Error()
 	}
 	r.Sz = numFromU64(rb.GetSerializedSizeInBytes())
+	r.Gc = numFromU64(rb.GetCardinality())
+	r.Emp = rb.IsEmpty()
 	if !v.Set.empty() {
 		mx := v.Set.max()
 		r.Mx = int(mx>>16) + 1
